@@ -140,6 +140,7 @@ func suiteResource(r *Rng, n int, thorough bool, o *Out) {
 		typ := genTyp(r, genTypeOpts{name: "t", maxAttrs: 4, maxRels: 2})
 		soft := newSoftVia(r, typ, o)
 		cur := typ.Copy() // the type the resource should now have
+		fresh := 0
 		expect := map[string]string{}
 		zero := func(t jsonapi.Type, k string) string {
 			if a, ok := t.Attrs[k]; ok {
@@ -235,7 +236,10 @@ func suiteResource(r *Rng, n int, thorough bool, o *Out) {
 						if !sameCount && r.bool() {
 							continue
 						}
-						name = f + "'"
+						// a name this resource never had (a name it has, or had, would keep
+						// its stored value: the library cannot know a field was "renamed")
+						fresh++
+						name = fmt.Sprintf("%s'%d", f, fresh)
 					}
 					if a, ok := cur.Attrs[f]; ok {
 						a.Name = name
